@@ -135,4 +135,145 @@ theorem stepItem_other_ne (c : Cc) (it : Bytes × Nat) (ht : itemType it ≠ .ot
       · split <;> simp
     all_goals simp
 
+/-! ### the invariant of parse results -/
+
+theorem numOf_range (it : Bytes × Nat) (v : Int) (h : numOf it = some v) : 0 ≤ v ∧ v ≤ 2147483647 := by
+  unfold numOf at h
+  cases hp : itemArg it with
+  | none => simp [hp] at h
+  | some p =>
+    simp only [hp] at h
+    split at h
+    · rename_i hc
+      simp only [Option.some.injEq] at h
+      subst h
+      refine ⟨hc.2, ?_⟩
+      rw [parseInt_snd]
+      exact (atoiC_range p).2
+    · simp at h
+
+structure CanonBase (c : Cc) : Prop where
+  numRange : ∀ t v, isNumType t = true → view c t = some (.num v) → 0 ≤ v ∧ v ≤ 2147483647
+  privPlain : ∀ x ∈ c.priv, isPlainQ x = true
+  ncPlain : ∀ x ∈ c.noCache, isPlainQ x = true
+
+theorem stepItem_lists_plain (c : Cc) (it : Bytes × Nat) (hp : ∀ x ∈ c.priv, isPlainQ x = true)
+    (hn : ∀ x ∈ c.noCache, isPlainQ x = true) :
+    (∀ x ∈ (stepItem c it).priv, isPlainQ x = true) ∧ (∀ x ∈ (stepItem c it).noCache, isPlainQ x = true) := by
+  unfold stepItem
+  simp only
+  split
+  · exact ⟨hp, hn⟩
+  · generalize itemType it = u
+    cases u <;> simp only [applyDirective, numericCase_eq]
+    case private_ =>
+      rcases ha : itemArg it with _ | s
+      · exact ⟨by simp, by simpa using hn⟩
+      · dsimp only
+        rcases hq : parseQuoted s (it.2 - itemNlen it - 1) with _ | v
+        · exact ⟨by simpa using hp, by simpa using hn⟩
+        · refine ⟨?_, by simpa using hn⟩
+          have := parseQuoted_plain_chars _ _ _ hq
+          intro x hx
+          simp only [priv_setMask, priv_setPriv, List.mem_append] at hx
+          rcases hx with hx | hx
+          · exact hp x hx
+          · exact this x hx
+    case noCache =>
+      rcases ha : itemArg it with _ | s
+      · exact ⟨by simpa using hp, by simp⟩
+      · dsimp only
+        rcases hq : parseQuoted s (it.2 - itemNlen it - 1) with _ | v
+        · exact ⟨hp, hn⟩
+        · refine ⟨by simpa using hp, ?_⟩
+          have := parseQuoted_plain_chars _ _ _ hq
+          intro x hx
+          simp only [noCache_setNoCache, List.mem_append] at hx
+          rcases hx with hx | hx
+          · exact hn x hx
+          · exact this x hx
+    case maxAge | sMaxage | maxStale | minFresh | staleIfError =>
+      split
+      · exact ⟨by simpa using hp, by simpa using hn⟩
+      · split <;> exact ⟨by simpa using hp, by simpa using hn⟩
+    all_goals exact ⟨by simpa using hp, by simpa using hn⟩
+
+theorem stepItem_canonBase (c : Cc) (it : Bytes × Nat) (hl : Lite c) (h : CanonBase c) : CanonBase (stepItem c it) := by
+  obtain ⟨h1, h2⟩ := stepItem_lists_plain c it h.privPlain h.ncPlain
+  refine ⟨?_, h1, h2⟩
+  intro t v hnum hv
+  by_cases ht : t = itemType it
+  · have ho : itemType it ≠ .other := by rw [← ht]; intro hh; rw [hh] at hnum; simp [isNumType] at hnum
+    have he : itemType it ≠ .enumEnd := by rw [← ht]; intro hh; rw [hh] at hnum; simp [isNumType] at hnum
+    cases hs : c.isSet (itemType it) with
+    | true =>
+      rw [stepItem_skip c it hs ho] at hv
+      exact h.numRange t v hnum hv
+    | false =>
+      rw [ht, stepItem_effective c it hl hs ho he, ← ht] at hv
+      have hA : (0 : Int) ≤ Gen.CcDirectives.MAX_STALE_ANY ∧ Gen.CcDirectives.MAX_STALE_ANY ≤ 2147483647 := by decide
+      cases t <;> simp [isNumType] at hnum <;> simp only [effective, isFlagType, isNumType] at hv
+      all_goals
+        simp at hv
+        rcases hn : numOf it with _ | w
+        · simp [hn] at hv
+          try (subst hv; exact hA)
+        · simp [hn] at hv
+          subst hv
+          exact numOf_range it _ hn
+  · rw [stepItem_frame c it t ht] at hv
+    exact h.numRange t v hnum hv
+
+theorem canonBase_init : CanonBase {} := by
+  refine ⟨?_, by simp, by simp⟩
+  intro t v _ hv
+  rw [view_init] at hv
+  simp at hv
+
+theorem foldl_canonBase (its : List (Bytes × Nat)) (c : Cc) (hl : Lite c) (h : CanonBase c) :
+    CanonBase (its.foldl stepItem c) := by
+  induction its generalizing c with
+  | nil => exact h
+  | cons it its ih => exact ih _ (stepItem_lite c it hl) (stepItem_canonBase c it hl h)
+
+
+/-- `other` is the ", "-join of well-formed unknown directives; together with the texts still to come all but the last end
+outside quotes -/
+def OtherOk (c : Cc) (pending : List Bytes) : Prop :=
+  ∃ L, c.other = joinItems L ∧ (∀ e ∈ L, GoodItem e ∧ textType e = .other) ∧ InitClosed (L ++ pending)
+
+theorem joinItems_ne_nil (L : List Bytes) (hne : ∀ e ∈ L, e ≠ []) (h : L ≠ []) : joinItems L ≠ [] :=
+  fun hh => h (joinItems_eq_nil L hne hh)
+
+theorem foldl_otherOk (its : List (Bytes × Nat)) (c : Cc)
+    (hg : ∀ it ∈ its, GoodItem (it.1.take it.2) ∧ it.2 ≤ it.1.length) (h : OtherOk c (itemTexts its)) :
+    OtherOk (its.foldl stepItem c) [] := by
+  induction its generalizing c with
+  | nil => simpa [itemTexts] using h
+  | cons it r ih =>
+    simp only [List.foldl_cons]
+    apply ih _ (fun x hx => hg x (List.mem_cons_of_mem _ hx))
+    obtain ⟨L, hL, hgood, hcl⟩ := h
+    obtain ⟨hgi, hle⟩ := hg it (List.mem_cons_self)
+    simp only [itemTexts, List.map_cons] at hcl
+    by_cases ht : itemType it = .other
+    · refine ⟨L ++ [it.1.take it.2], ?_, ?_, ?_⟩
+      · rw [stepItem_other_eq c it ht, joinItems_snoc, hL]
+        by_cases hLn : L = []
+        · subst hLn; simp [joinItems]
+        · have : (joinItems L).length ≠ 0 := by
+            intro hh
+            exact joinItems_ne_nil L (fun e he => (hgood e he).1.ne) hLn (List.length_eq_zero_iff.mp hh)
+          simp [hLn, this]
+      · intro e he
+        simp only [List.mem_append, List.mem_singleton] at he
+        rcases he with he | rfl
+        · exact hgood e he
+        · exact ⟨hgi, by rw [← itemType_eq_textType it hle]; exact ht⟩
+      · simpa [itemTexts] using hcl
+    · refine ⟨L, ?_, hgood, ?_⟩
+      · rw [stepItem_other_ne c it ht, hL]
+      · exact initClosed_remove L _ _ hcl
+
+
 end SquidModel.Cc
